@@ -573,10 +573,74 @@ def d14_probe():
                     input=dict(kind='d14', src=[py(e) for e in b['outs']], ss=b['ss']), signature=dict(op='float-left-of-int-valued-input'))
 
 
+APPLY_SRC = '''import numpy as np
+from sequence_jacobian import simple
+
+def crra(c, sigma=2.0):
+    return c ** (1 - sigma) / (1 - sigma)
+
+def scaled_sqrt(x, scale=1.0, shift=0.0):
+    return scale * np.sqrt(x + shift)
+
+@simple
+def applied(c, k):
+    u = c.apply(crra, sigma=3.5) + k(-1).apply(scaled_sqrt, scale=2.5, shift=0.25)
+    v = (c * k(+1)).apply(crra)
+    w = k.apply(np.log) + c(-1).apply(np.exp)
+    return u, v, w
+'''
+
+
+def check_applied_functions():
+    """scalar functions applied with .apply(f, **kwargs) -- keyword arguments different from the function's defaults, defaults, numpy ufuncs: steady state and Jacobian columns
+    vs the analytic derivatives, and Jacobian vs central differences of the block's own impulse_nonlinear"""
+    d = os.path.join(C.WORK, 'C02')
+    os.makedirs(d, exist_ok=True)
+    with open(os.path.join(d, 'c02_applied.py'), 'w') as f:
+        f.write(APPLY_SRC)
+    if d not in sys.path:
+        sys.path.insert(0, d)
+    importlib.invalidate_caches()
+    sys.modules.pop('c02_applied', None)
+    blk = importlib.import_module('c02_applied').applied
+    out = []
+    for cs, ks in ((1.3, 2.0), (0.8, 1.1)):
+        ss = blk.steady_state(dict(c=cs, k=ks))
+        T = 5
+        J = blk.jacobian(ss, ['c', 'k'], T=T)
+        inp = dict(kind='applied', block='u = c.apply(crra, sigma=3.5) + k(-1).apply(scaled_sqrt, scale=2.5, shift=0.25); v = (c * k(+1)).apply(crra); w = k.apply(np.log) + c(-1).apply(np.exp)', ss=dict(c=cs, k=ks))
+        want_ss = dict(u=cs ** (-2.5) / (-2.5) + 2.5 * np.sqrt(ks + 0.25), v=(cs * ks) ** (-1.0) / (-1.0), w=np.log(ks) + np.exp(cs))
+        if any(abs(ss[o] - v) > 1e-12 * max(1, abs(v)) for o, v in want_ss.items()):
+            out.append(dict(what='steady state of a block with applied functions', input=inp, signature=dict(op='applied', what='ss')))
+        want = {('u', 'c'): {(0, 0): cs ** (-3.5)}, ('u', 'k'): {(-1, 0): 2.5 * 0.5 / np.sqrt(ks + 0.25)},
+                ('v', 'c'): {(0, 0): ks * (cs * ks) ** (-2.0)}, ('v', 'k'): {(1, 0): cs * (cs * ks) ** (-2.0)},
+                ('w', 'k'): {(0, 0): 1 / ks}, ('w', 'c'): {(-1, 0): np.exp(cs)}}
+        for (o, i), els in want.items():
+            e = J.nesteddict.get(o, {}).get(i)
+            got = {} if e is None else {k: float(v) for k, v in e.elements.items()}
+            if set(got) != set(els) or any(abs(got[k] - v) > 1e-5 * max(1, abs(v)) for k, v in els.items()):       # the package differentiates applied functions numerically
+                out.append(dict(what='Jacobian of an applied scalar function differs from its analytic derivative (keyword arguments passed to .apply must reach the differentiation)', input=dict(inp, output=o, input_name=i),
+                                observed={str(k): v for k, v in got.items()}, expected={str(k): float(v) for k, v in els.items()}, signature=dict(op='applied', what='jacobian', pair=f'{o},{i}')))
+        for i in ('c', 'k'):
+            dx = np.zeros(T + 4)
+            dx[2] = 1e-5
+            up, dn = blk.impulse_nonlinear(ss, {i: dx}), blk.impulse_nonlinear(ss, {i: -dx})
+            for o in ('u', 'v', 'w'):
+                fd = (up[o] - dn[o]) / 2e-5
+                e = J.nesteddict.get(o, {}).get(i)
+                col = np.zeros(T + 4) if e is None else e.matrix(T + 4)[:, 2]
+                if np.abs(fd - col).max() > 1e-5 * max(1.0, np.abs(col).max()):
+                    out.append(dict(what='Jacobian of a block with applied functions differs from the derivative of its own nonlinear impulse', input=dict(inp, output=o, input_name=i), signature=dict(op='applied', what='jac-vs-nonlinear', pair=f'{o},{i}')))
+    return out
+
+
 def oracle(ctx, hints, broken):
     rng = ctx['rng']
     deep = bool(broken) or ctx['tier'] == 'thorough'
     viol, n = [], 0
+    for v in check_applied_functions():
+        C.push(viol, v)
+    n += 2
     blocks = []
     for e in FIXED:
         for ss in ([2, 4, 3], [1.5, 4, 2]):
@@ -614,6 +678,9 @@ def tuplify(e):
 
 
 def replay(rp):
+    if (rp.get('input') or {}).get('kind') == 'applied':
+        b = check_applied_functions()
+        return b[0] if b else None
     c = rp.get('input') or {}
     if c.get('kind') == 'd14':
         return d14_probe()
